@@ -1240,7 +1240,14 @@ func (p *c11Pipe) view(st c11PStep) (*c11ChangeView, error) {
 			v.verified = append(v.verified, u)
 		}
 	}
-	v.allVerified = len(v.verified) == len(all)
+	// a transaction carrying any invalid signature may be refused whatever the rule says; if it is
+	// accepted nevertheless, only names with a valid signature somewhere in it may have counted
+	v.allVerified = true
+	for _, a := range st.Auth {
+		if c11LastComp(a.URI) != a.Key {
+			v.allVerified = false
+		}
+	}
 	v.want = c11Ref(v.confirmed, v.owner, v.verified)
 	v.wantPending = c11Ref(v.pending, v.owner, v.verified)
 	v.hasPending = c11RuleText(v.confirmed, "") != c11RuleText(v.pending, "")
